@@ -737,6 +737,13 @@ func (vc *VC) localVars(st *State, vars map[string]Val, before ssa.Instruction) 
 		ty := a.Type().(*types.Pointer).Elem()
 		vars[n] = Val{T: st.cells[a], S: vc.sortOf(ty), Ty: ty}
 	}
+	for n, v := range vc.namedObjs {
+		if _, shadowed := best[n]; !shadowed {
+			// like scalar parameters (whose current value is their local cell), a struct parameter is read by the code
+			// through its local copy: the name denotes that copy; old(name) still gives the entry value
+			vars[n] = v
+		}
+	}
 	for fv, t := range st.fcells {
 		ty := fv.Type().(*types.Pointer).Elem()
 		if _, shadowed := best[fv.Name()]; !shadowed {
